@@ -193,6 +193,32 @@ def is_gt_guard(test_pol, vtxt, total_txt):
   return sym == '<' and l == total_txt and r == vtxt
 
 
+def stale_running_maximum(fn):
+  """[(store, name, snapshot assignment)]: inside a loop a field is raised - `if v > N: X.f = v` - but N is a local that was read
+  from X.f *before* the loop and is never updated in it.  The test then compares every element with the value the field had at
+  the start, not with the maximum so far: a later, smaller element overwrites an earlier, larger one."""
+  out = []
+  for lp in ast.walk(fn):
+    if not isinstance(lp, (ast.For, ast.While)):
+      continue
+    stored_in_loop = set(t.id for s in walk_stmts(lp) for t, _v, _o in store_targets(s) if isinstance(t, ast.Name))
+    for s in walk_stmts(lp):
+      if not (isinstance(s, ast.Assign) and len(s.targets) == 1 and isinstance(s.targets[0], ast.Attribute)):
+        continue
+      ftxt, vtxt = norm_text(s.targets[0]), norm_text(s.value)
+      for t, pol in enclosing_tests(fn, s, stop_at=lp):
+        c = compare_full(t, pol)
+        if c is None or c[1] not in ('<', '<=') or c[2] != vtxt:
+          continue
+        name = c[0]
+        if not name.isidentifier() or name in stored_in_loop:
+          continue
+        snaps = [a for a in walk_stmts(fn) if isinstance(a, ast.Assign) and len(a.targets) == 1 and isinstance(a.targets[0], ast.Name) and a.targets[0].id == name]
+        if len(snaps) == 1 and norm_text(snaps[0].value) == ftxt and not any(snaps[0] is x for x in walk_stmts(lp)):
+          out.append((s, name, snaps[0]))
+  return out
+
+
 def const_value(node):
   """Literal numeric value of a node (handles unary minus), else None."""
   if isinstance(node, ast.Constant) and isinstance(node.value, (int, float)) and not isinstance(node.value, bool):
